@@ -174,14 +174,16 @@ fn size_base_used_sweeps(rep: &mut Report, thorough: bool) {
         // used ring at gpa 0x3000: flags u16, idx u16
         // SAFETY: pwrite on our memfd.
         unsafe { libc::pwrite(mem.as_raw_fd(), &u as *const u16 as *const libc::c_void, 2, 0x3002) };
-        let r = h.ack(SET_VRING_ADDR, &p_vring_addr(0, 0, USER + 0x1000, USER + 0x3000, USER + 0x2000, 0), &[]);
+        // with and without the log flag (and a log address): the flag must not change what the ring gets
+        let (fl, logaddr) = if u % 2 == 1 { (1u32, USER + 0x8000) } else { (0u32, 0u64) };
+        let r = h.ack(SET_VRING_ADDR, &p_vring_addr(0, fl, USER + 0x1000, USER + 0x3000, USER + 0x2000, logaddr), &[]);
         let s = q0(&h).unwrap_or_default();
         rep.evaluations += 1;
         rep.transitions += 1;
         let ok = r == Ok(true) && s.next_used == u && s.desc == 0x1000 && s.used == 0x3000 && s.avail == 0x2000;
         if !ok {
             rep.outcome("ring-addr-differs");
-            rep.violation("C14:set_vring_addr:queue-state", &format!("used index {u} in guest memory; after SET_VRING_ADDR ({r:?}) the ring has next_used {} desc {:#x} avail {:#x} used {:#x}", s.next_used, s.desc, s.avail, s.used), json!({"check":"C14","part":"used_idx","used":u}));
+            rep.violation("C14:set_vring_addr:queue-state", &format!("used index {u} in guest memory; after SET_VRING_ADDR with flags {fl:#x} ({r:?}) the ring has next_used {} desc {:#x} avail {:#x} used {:#x}", s.next_used, s.desc, s.avail, s.used), json!({"check":"C14","part":"used_idx","used":u,"flags":fl}));
             if r != Ok(true) && renegotiate(&mut h, PROTO, VIRTIO_ALL).is_err() {
                 return;
             }
@@ -530,11 +532,13 @@ enum HOp {
     CallNone,
     /// GET_VRING_BASE (drops the kick and call descriptors), a signal from the backend, restart
     StopSignalRestart,
+    /// SET_MEM_TABLE (table B) that the backend rejects: the table in force stays in force
+    TableBRejected,
     UseRing,
 }
 
 fn histories(rep: &mut Report, depth: usize) {
-    let ops = [HOp::TableA, HOp::TableB, HOp::Addr, HOp::Call1, HOp::Call2, HOp::CallNone, HOp::StopSignalRestart, HOp::UseRing];
+    let ops = [HOp::TableA, HOp::TableB, HOp::Addr, HOp::Call1, HOp::Call2, HOp::CallNone, HOp::StopSignalRestart, HOp::TableBRejected, HOp::UseRing];
     let mut seqs: Vec<Vec<usize>> = vec![vec![]];
     let mut all: Vec<Vec<usize>> = Vec::new();
     for _ in 0..depth {
@@ -576,6 +580,21 @@ fn histories(rep: &mut Report, depth: usize) {
                         table = Some(t);
                     } else {
                         broken = true;
+                    }
+                }
+                HOp::TableBRejected => {
+                    // table B maps the same frontend addresses to guest addresses 0x8000 higher
+                    h.be.sh.0.lock().unwrap().fail_update_memory = true;
+                    let r = h.ack(SET_MEM_TABLE, &p_mem_table(&[Region { gpa: 0x8000, size: 0x8000, user: USER, offset: 0 }]), &[mems[1].as_raw_fd()]);
+                    h.be.sh.0.lock().unwrap().fail_update_memory = false;
+                    if r == Ok(true) {
+                        rep.violation("C14:rejected-table-acknowledged", "the backend refused the memory table but SET_MEM_TABLE was acknowledged as success", case.clone());
+                        broken = true;
+                    } else {
+                        // a failed request ends the session; the handler's state stays
+                        if renegotiate(&mut h, PROTO, 0x3 | VIRTIO_F_PROTOCOL_FEATURES).is_err() {
+                            broken = true;
+                        }
                     }
                 }
                 HOp::Addr => {
@@ -710,7 +729,7 @@ pub fn run(rep: &mut Report) {
     rep.sample(json!({"part":"set_vring_num","num":3,"expect":"rejected, or the ring really has size 3"}));
     rep.sample(json!({"part":"histories","seq":["TableA","Addr","Call1","TableB","Call2","UseRing"],"expect":"used element in table B's file, only call descriptor 2 signalled"}));
     rep.sample(json!({"part":"set_features","offered":"0x160000003","requested":"0x20000000","expect":"accepted, backend gets exactly 0x20000000, event_idx=true on every queue"}));
-    rep.rule = "ring index 0..=255 for each of the 8 per-ring messages; SET_VRING_NUM over 0..=300 and boundaries (0..=65535 and beyond at thorough) with the resulting queue size read back; SET_VRING_BASE then GET_VRING_BASE and used-index contents over 0..=260 and boundaries (0..=65535 at thorough); 343 address triples at region edges, 512 triples over two regions adjacent in the frontend's address space but not in guest address space; all histories of length <= 3 (5 at thorough) over {SET_FEATURES plain / with EVENT_IDX / EVENT_IDX only, RESET_OWNER, RESET_DEVICE} ending in a SET_FEATURES (backend and queues must hold the latest set); SET_FEATURES for 7 offered masks x (single bits, offered minus/plus one bit, patterns) on 1-3 queues incl. EVENT_IDX; the backend-request channel after each of the 8 subsets of {REPLY_ACK, SHARED_OBJECT, SHMEM}; all histories of length <= 4 (5 at thorough) over {table A, table B, SET_VRING_ADDR, call fd1/fd2/none, GET_VRING_BASE + signal + restart, add_used+signal} ending in a ring operation. Queue state is read by a probe listener inside the worker. Non-trivial = evaluations whose queue state / callback / memory / counter was compared".into();
+    rep.rule = "ring index 0..=255 for each of the 8 per-ring messages; SET_VRING_NUM over 0..=300 and boundaries (0..=65535 and beyond at thorough) with the resulting queue size read back; SET_VRING_BASE then GET_VRING_BASE and used-index contents over 0..=260 and boundaries (0..=65535 at thorough), SET_VRING_ADDR alternately without and with the log flag; 343 address triples at region edges, 512 triples over two regions adjacent in the frontend's address space but not in guest address space; all histories of length <= 3 (5 at thorough) over {SET_FEATURES plain / with EVENT_IDX / EVENT_IDX only, RESET_OWNER, RESET_DEVICE} ending in a SET_FEATURES (backend and queues must hold the latest set); SET_FEATURES for 7 offered masks x (single bits, offered minus/plus one bit, patterns) on 1-3 queues incl. EVENT_IDX; the backend-request channel after each of the 8 subsets of {REPLY_ACK, SHARED_OBJECT, SHMEM}; all histories of length <= 4 (5 at thorough) over {table A, table B, SET_VRING_ADDR, call fd1/fd2/none, GET_VRING_BASE + signal + restart, a table the backend rejects, add_used+signal} ending in a ring operation. Queue state is read by a probe listener inside the worker. Non-trivial = evaluations whose queue state / callback / memory / counter was compared".into();
 }
 
 pub fn replay(case: &Value, rep: &mut Report) {
